@@ -19,6 +19,7 @@ package c16
 
 import (
 	"bytes"
+	"encoding/base64"
 	"encoding/json"
 	"fmt"
 	"math/rand"
@@ -217,7 +218,8 @@ func (c *ctx) report(kind string, key map[string]interface{}, what string, detai
 
 func describe(je journalEntry) (map[string]interface{}, map[string]interface{}) {
 	key := map[string]interface{}{"family": je.Family, "lang": je.Lang, "loader": je.Key.Loader, "flags": flagSetNames[je.Key.FS], "mode": je.Key.Mode}
-	detail := map[string]interface{}{"case": je.CaseID, "input": string(je.Input), "input_bytes": len(je.Input), "eval": je.Key, "extra": je.Extra}
+	// the input also in base64: JSON cannot carry invalid UTF-8
+	detail := map[string]interface{}{"case": je.CaseID, "input": string(je.Input), "input_b64": base64.StdEncoding.EncodeToString(je.Input), "input_bytes": len(je.Input), "eval": je.Key, "extra": je.Extra}
 	if je.Family == "nest" && je.Extra != nil {
 		key["nest_open"] = je.Extra["open"]
 		key["binds"] = je.Extra["binds"]
